@@ -270,6 +270,62 @@ def has_opaque(v, allow=()):
     return False
 
 
+def plain_strformat(tmpl, args, style):
+    """'{}-r{}'.format(a, b) / f'{a}-r{b}' / '%s-r%s' % (a, b) with abstract-string arguments and no format specs is a
+    concatenation -> StrV; None when the template does anything else"""
+    if not isinstance(tmpl, str):
+        return None
+    args = list(args) if isinstance(args, (tuple, list)) else [args]
+    if not all(isinstance(a, (str, StrV)) for a in args) or not any(isinstance(a, StrV) for a in args):
+        return None
+    chars, used = [], 0
+    if style == "format":
+        import string as _string
+        try:
+            fields = list(_string.Formatter().parse(tmpl))
+        except ValueError:
+            return None
+        auto = None
+        for lit, name, spec, conv in fields:
+            chars += [ord(c) for c in lit]
+            if name is None:
+                continue
+            if spec or conv not in (None, "s"):
+                return None
+            if name == "":
+                if auto is False:
+                    return None
+                auto, idx = True, used
+                used += 1
+            elif name.isdigit():
+                if auto is True:
+                    return None
+                auto, idx = False, int(name)
+            else:
+                return None
+            if idx >= len(args):
+                return None
+            chars += StrV.of(args[idx]).chars
+        return StrV(chars)
+    i = 0
+    while i < len(tmpl):
+        c = tmpl[i]
+        if c != "%":
+            chars.append(ord(c))
+            i += 1
+            continue
+        nxt = tmpl[i + 1:i + 2]
+        if nxt == "%":
+            chars.append(ord("%"))
+        elif nxt == "s" and used < len(args):
+            chars += StrV.of(args[used]).chars
+            used += 1
+        else:
+            return None
+        i += 2
+    return StrV(chars) if used == len(args) else None
+
+
 def as_bits(v):
     if isinstance(v, Bits):
         return v
@@ -334,14 +390,14 @@ class Interp:
             else:
                 di = i - (len(params) - ndef)
                 if 0 <= di < ndef:
-                    env[p] = self.eval(defaults[di], {}, func)
+                    env[p] = self.eval(defaults[di], self.class_scope(func.cls, defaults[di]), func)
                 else:
                     env[p] = Sym("param", p)
         for kw, d in zip(a.kwonlyargs, a.kw_defaults):
             if kwargs and kw.arg in kwargs:
                 env[kw.arg] = kwargs[kw.arg]
             elif d is not None:
-                env[kw.arg] = self.eval(d, {}, func)
+                env[kw.arg] = self.eval(d, self.class_scope(func.cls, d), func)
         env["__func__"] = func
         self.depth += 1
         is_gen = _is_generator(func.node)
@@ -774,8 +830,8 @@ class Interp:
                         a = (c, c.attrs[attr])
                         break
                 if a is not None:
-                    v = self.folder.fold(a[1], a[0].module)
-                    if not isinstance(v, Unknown):
+                    v = self.class_attr_value(a[0], attr)
+                    if v is not NotImplemented:
                         return v
             return Sym("attr", base.name, attr)
         if isinstance(base, Ref) and base.kind == "class":
@@ -784,11 +840,12 @@ class Interp:
                 mem = self.folder.enum_members(cls)
                 if attr in mem:
                     return mem[attr]
-            a = cls.lookup_attr(attr)
-            if a is not None:
-                v = self.folder.fold(a, cls.module)
-                if not isinstance(v, Unknown):
-                    return v
+            for c in cls.mro():
+                if attr in c.attrs:
+                    v = self.class_attr_value(c, attr)
+                    if v is not NotImplemented:
+                        return v
+                    break
             f = cls.lookup(attr)
             if f is not None:
                 decos = {d.id if isinstance(d, ast.Name) else getattr(d, "attr", None) for d in f.node.decorator_list}
@@ -802,6 +859,40 @@ class Interp:
         if isinstance(base, Sym) and base.op == "module":
             return Sym("modattr", base.args[0], attr)
         return Sym("attr", base, attr)
+
+    def class_attr_value(self, cls, attr, _depth=0):
+        """value of the class-body assignment `attr = expr` of `cls`: constant-folded, else evaluated in the class scope
+        (names of earlier class-body assignments visible); NotImplemented when it cannot be evaluated"""
+        expr = cls.attrs.get(attr)
+        if expr is None:
+            return NotImplemented
+        v = self.folder.fold(expr, cls.module)
+        if not is_unknown(v):
+            return v
+        key = (cls.module.relpath, cls.name, attr)
+        cache = self.__dict__.setdefault("_ccache", {})
+        if key not in cache:
+            cache[key] = NotImplemented
+            try:
+                cache[key] = self.eval(expr, self.class_scope(cls, expr, _depth), _ModuleCtx(cls.module))
+            except (Split, Raised):
+                pass
+        return cache[key]
+
+    def class_scope(self, cls, expr, _depth=0):
+        """environment holding the class-body names that `expr` (evaluated in the class body: a class attribute initialiser
+        or a method's default argument) refers to"""
+        env = {}
+        if cls is None or _depth > 6:
+            return env
+        for n in ast.walk(expr):
+            if isinstance(n, ast.Name) and n.id in cls.attrs and n.id not in env:
+                v = self.class_attr_value(cls, n.id, _depth + 1)
+                if v is not NotImplemented:
+                    env[n.id] = v
+            elif isinstance(n, ast.Name) and n.id in cls.methods and n.id not in env:
+                env[n.id] = Ref("func", cls.methods[n.id])
+        return env
 
     def e_Tuple(self, e, env, func):
         return tuple(self.eval(x, env, func) for x in e.elts)
@@ -849,6 +940,9 @@ class Interp:
                 return tmpl.format(*vals)
             except Exception:
                 pass
+        r = plain_strformat(tmpl, args, "format")
+        if r is not None:
+            return r
         return Sym("strformat", tmpl, tuple(args))
 
     def e_IfExp(self, e, env, func):
@@ -926,6 +1020,9 @@ class Interp:
                     return a % bb_
                 except Exception:
                     pass
+            r = plain_strformat(a, b, "%")
+            if r is not None:
+                return r
             return Sym("strformat", a, b)
         if isinstance(a, (str, bytes)) or isinstance(b, (str, bytes)) or _is_strterm(a) or _is_strterm(b):
             return Sym("strop", type(op).__name__, a, b)
@@ -1509,6 +1606,9 @@ class Interp:
             k = _int(args[0])
             if _hashable_const(k):
                 return recv.get(k, args[1] if len(args) > 1 else None)
+        if isinstance(recv, str) and name == "join" and len(args) == 1 and isinstance(args[0], (list, tuple)) \
+                and all(isinstance(x, str) for x in args[0]):
+            return recv.join(args[0])
         if isinstance(recv, str) and name == "join" and len(args) == 1 and isinstance(args[0], (list, tuple)) and args[0] \
                 and all(isinstance(x, (str, StrV)) for x in args[0]) and any(isinstance(x, StrV) for x in args[0]):
             chars = []
@@ -1533,6 +1633,9 @@ class Interp:
             except Exception:
                 pass
         if isinstance(recv, str) and name == "format":
+            r = plain_strformat(recv, args, "format") if not kwargs else None
+            if r is not None:
+                return r
             return Sym("strformat", recv, tuple(args))
         return Sym("call", Sym("attr", recv, name), *args)
 
